@@ -423,7 +423,7 @@ for _k, _v in ADDED3.items():
 ADDED4 = {
     "C04": "the degenerate family places empty cones of every kind with a dimension argument (Zero(0), NN(0), SOC(0), PSD(0)) first, last, after collapsible and after non-collapsible cones; the shared generator also draws SOC/PSD dimensions 0 and 1",
     "C05": "objectives of two solved runs must agree to within the gap the documentation ALLOWS the run (its own tolerances, full or reduced, mapped to the original objective units) plus what the residuals can move them, not only within the gap it happens to have",
-    "C07": "workload to_the_roundoff_floor: small symmetric-cone problems (half of the second-order cones axis-only) whose optimality tolerances are zero run until max_iter or a numerical stop, so complementary components fall to 1e-17 and below; nonnegative components are judged exactly at every magnitude, other blocks while their size is within [1e-150, 1e150], with a rounding allowance relative to the larger of the current and the previous block size",
+    "C07": "workload to_the_roundoff_floor: small symmetric-cone problems (half of the second-order cones axis-only) whose optimality tolerances are zero run until max_iter or a numerical stop, so complementary components fall to 1e-17 and below; nonnegative components are judged exactly at every magnitude, other blocks while their size is within [1e-75, 1e75], with a rounding allowance relative to the larger of the current and the previous block size",
     "C08": "a Solved/Infeasible pair against the fresh solver is accepted only if each result passes the documented test of its own status (reduced tolerances for Almost... statuses) on the model data",
     "C19": "settings are compared through serde AND through the derived Debug view (a field skipped by the serialiser is invisible to the former); a verdict pair original-vs-loaded is counted instead of judged only if equilibration is on, the file differs from the user data in some bit and both results pass their own documented tests on the user's problem",
 }
